@@ -752,6 +752,10 @@ func runC17ToChannel(e *Env) {
 	if closedSeen && terminalReceived {
 		e.Probe("c17-tochannel-drained-to-close")
 	}
+	// unsubscription reaches the source, also when it comes before ToChannel's goroutine has subscribed it
+	if unsubReturned && src.Live != 0 {
+		e.Violate("C17", "source-not-released", fmt.Sprintf("Unsubscribe returned %s ms ago but the source is still subscribed (%d live subscription(s)): %s", c17Ms(long), src.Live, describe()))
+	}
 	// nobody is left blocked once the consumer drained the channel to its close or the subscription was cancelled
 	if closedSeen || unsubReturned {
 		for _, a := range e.K.Actors() {
@@ -790,7 +794,9 @@ func runC17FromChannel(e *Env) {
 			closes = true
 		}
 	}
-	var sent []int // sends that returned
+	var sent []int   // sends that returned
+	sending := false // a send is in progress (its value may already have been taken: the sender learns it later)
+	sendingAtReturn := false
 	closeInvoked, closeStep := false, 0
 	e.Go("chan-producer", func() {
 		for _, st := range prog {
@@ -801,7 +807,9 @@ func runC17FromChannel(e *Env) {
 			}
 			if st.K == "N" {
 				e.K.Log(fmt.Sprintf("producer sends %d", st.V))
+				sending = true
 				simrt.Send(ch, st.V)
+				sending = false
 				sent = append(sent, st.V)
 			} else {
 				closeInvoked, closeStep = true, e.Step()
@@ -844,6 +852,7 @@ func runC17FromChannel(e *Env) {
 			e.K.Log("Unsubscribe called")
 			h.S.Unsubscribe()
 			consumedAtReturn = consumed() // no scheduling point since Unsubscribe returned
+			sendingAtReturn = sending
 			unsubReturned = true
 			e.K.Log("Unsubscribe returned")
 		})
@@ -906,9 +915,13 @@ func runC17FromChannel(e *Env) {
 	if len(rec.Events) > eventsAtSettle {
 		e.Violate("C17", "delivery-after-cut", fmt.Sprintf("%d callback(s) entered after Unsubscribe had returned and the system had settled: %s", len(rec.Events)-eventsAtSettle, describe()))
 	}
-	if extra := consumed() - consumedAtReturn; extra > 1 {
+	tolerated := 1
+	if sendingAtReturn {
+		tolerated++ // the value of a send in progress at that moment may have been taken before Unsubscribe returned
+	}
+	if extra := consumed() - consumedAtReturn; extra > tolerated {
 		e.Violate("C17", "reads-after-unsubscribe", fmt.Sprintf("%d values were taken from the channel after Unsubscribe had returned (at most the one receive in flight is tolerable); they are lost to any other reader: %s", extra, describe()))
-	} else if extra == 1 {
+	} else if extra >= 1 {
 		e.Probe("c17-fromchannel-one-read-after-unsubscribe")
 	}
 	for _, a := range e.K.Actors() {
